@@ -56,6 +56,15 @@ def showMatch : MatchRes → String
 def projectForChunking (obs : String) : String :=
   " ".intercalate ((obs.splitOn " ").filter fun f => !f.startsWith "bw=")
 
+def envOf : String → Option Enveloper
+  | "grpc-client" => some .grpcClient
+  | "grpc-server" => some .grpcServer
+  | "grpcweb-client" => some .grpcWebClient
+  | "grpcweb-server" => some .grpcWebServer
+  | "connect-client" => some .connectStreamClient
+  | "connect-server" => some .connectStreamServer
+  | _ => none
+
 def dispatch : List String → String
   | ["status_from_rpc", n] => match n.toNat? with
       | some k => optNat (httpStatusFromRPC k)
@@ -89,6 +98,16 @@ def dispatch : List String → String
       | .error i => s!"reject {i}"
       | .ok routes => showMatch (routeMatch routes p m)
     | _, _, _ => "bad-arg"
+  | ["env_dec", h, b] =>
+    match envOf h, fromHex b with
+    | some e, some [f, a, b1, c, d] => match e.decode f a b1 c d with
+      | some env => s!"ok {env.trailer} {env.compressed} {env.length}"
+      | none => "err"
+    | _, _ => "bad-arg"
+  | ["env_enc", h, t, c, n] =>
+    match envOf h, n.toNat? with
+    | some e, some len => toHex (e.encode { trailer := t == "true", compressed := c == "true", length := len })
+    | _, _ => "bad-arg"
   | ["e2e", h] => runE2E h
   | ["e2e_fresh", h] => runE2E h
   | ["e2e_getpost", a, b] => runE2E a ++ " ## " ++ runE2E b
